@@ -23,6 +23,10 @@ import (
 var rec = vt.New("C04")
 
 func TestMain(m *testing.M) {
+	if os.Getenv("VERIF_ROLE") == "c04-nocaps-inner" {
+		innerNoCaps()
+		return
+	}
 	testscript.Main(tskit.MainWrapper{M: m, After: rec.Flush}, tskit.Commands())
 }
 
@@ -548,6 +552,6 @@ func TestBatches(t *testing.T) {
 	}}, vt.N(150, 600))
 }
 
-var replayers = vt.Replayer{"batch": vt.Decode(checkBatch)}
+var replayers = vt.Replayer{"batch": vt.Decode(checkBatch), "perm": vt.Decode(checkPerm)}
 
 func TestReplay(t *testing.T) { vt.Replay(t, rec, replayers) }
